@@ -22,13 +22,14 @@ JAX_BOUNDED = {"extended_tube"}
 
 def compare(run, pair, what, a, b, scale, tol, unit, config=None, sample=None):
     a, b = np.asarray(a, float), np.asarray(b, float)
+    const = lambda x: x.ndim >= 2 and all(n == 1 for n in x.shape[-2:])  # a state-independent tensor with size-one batch axes
+    if a.shape != b.shape and a.ndim == b.ndim and a.shape[:-2] == b.shape[:-2] and (const(a) or const(b)):
+        a, b = np.broadcast_arrays(a, b)
     if a.shape != b.shape:
-        try:
-            a, b = np.broadcast_arrays(a, b)
-        except ValueError:
-            run.fail("material.pairs", "pair=%s clause=%s-shape" % (pair, what), "%s: %s of the two implementations have shapes %s / %s"
-                     % (pair, what, a.shape, b.shape), unit=unit)
-            return
+        # results for the same batch of states have the same layout (no broadcasting: (.., 4, 1) is not (.., 1, 4))
+        run.fail("material.pairs", "pair=%s clause=%s-shape" % (pair, what), "%s: %s of the two implementations have shapes %s / %s"
+                 % (pair, what, a.shape, b.shape), unit=unit)
+        return
     run.compare("material.pairs", "pair=%s clause=%s" % (pair, what), maxabs(a - b) / max(scale, 1e-300), tol,
                 "%s: %s of the two implementations differ on identical input" % (pair, what), unit=unit, config=config or (pair, what),
                 sample=sample)
@@ -44,8 +45,18 @@ def case_backend_pair(name, rep):
         p = sampler(rng)
         a = TT.Hyperelastic(getattr(TT.models.hyperelastic, name), **p)
         b = JX.Hyperelastic(getattr(JX.models.hyperelastic, name), **p)
-        batch = (1, 4 if run.tier == "quick" else 8)
+        batch = (1, 4 if run.tier == "quick" else 8) if rep % 2 == 0 else (2, 3)  # two non-trivial batch axes as well
         F = batch_F(rng, batch, lo=0.75, hi=1.4)
+        if rep % 2 == 1:
+            # coincident and nearly coincident principal stretches (regularised branches of the eigenvalue-based models):
+            # undeformed, uniaxial, equibiaxial, dilatation, a gap of 1e-5 - in rotated frames
+            from ..util import random_rotation
+            kinds = [lambda l: np.eye(3), lambda l: np.diag([l, l ** -0.5, l ** -0.5]), lambda l: np.diag([l, l, l ** -1.2]), lambda l: l * np.eye(3),
+                     lambda l: np.diag([l, l + 1e-5, 1 / l])]
+            for k in range(batch[1]):
+                Rm, Qm = random_rotation(rng, 3), random_rotation(rng, 3)
+                F[:, :, 0, k] = Rm @ Qm @ kinds[(k + rep // 2) % 5](float(rng.uniform(0.8, 1.35))) @ Qm.T
+            run.units["pairs:coincident-stretches"] += 1
         Pa, Pb = a.gradient([F, None])[0], b.gradient([F, None])[0]
         Aa, Ab = a.hessian([F, None])[0], b.hessian([F, None])[0]
         sA = maxabs(Aa)
@@ -63,6 +74,27 @@ def case_backend_pair(name, rep):
         elif name in JAX_BOUNDED:
             compare(run, pair, "stress[bounded-effect]", Pa, Pb, sA, 20 * 1e-4, pair + ":stress")
             compare(run, pair, "elasticity[bounded-effect]", Aa, Ab, sA, 50 * 1e-4, pair + ":elasticity")
+            # tight: the documented energy with the documented shift diag(0, 1e-4, -1e-4) inside the eigenvalues only, written here
+            from tensortrax.math import log, trace, sum as tsum
+            from tensortrax.math.linalg import det, eigvalsh
+
+            def shifted(C, Gc, delta, Ge, beta):
+                S = np.zeros(C.x.shape)
+                S[1, 1], S[2, 2] = 1e-4, -1e-4
+                J3 = det(C) ** (-1 / 3)
+                D = J3 * trace(C)
+                w = J3 * eigvalsh(C + S)
+                g_ = (1 - delta ** 2) * (D - 3) / (1 - delta ** 2 * (D - 3))
+                return Gc / 2 * (g_ + log(1 - delta ** 2 * (D - 3))) + 2 * Ge / beta ** 2 * tsum(w ** (-beta / 2) - 1)
+
+            def Pref(G):
+                C = np.ascontiguousarray(np.einsum("ki...,kj...->ij...", G, G))
+                dW = np.asarray(tr.gradient(shifted, wrt=0, ntrax=2, sym=False)(C, **p))
+                return MM.mm(G, dW + np.swapaxes(dW, 0, 1))
+            compare(run, pair, "stress[same-perturbation]", Pb, Pref(F), sA, 1e-6, pair + ":stress-tight")
+            if rep % 2 == 0:
+                # (at coincident stretches tensortrax' own eigenvalue derivatives are regularised: distinct stretches only)
+                compare(run, pair, "elasticity[same-perturbation]", Ab, MM.fd_wrt_F(Pref, F, 1e-6), sA, 1e-5, pair + ":elasticity-tight")
         else:
             compare(run, pair, "stress", Pa, Pb, sA, 1e-9, pair + ":stress",
                     sample={"pair": pair, "params": p, "max|P_a - P_b|": maxabs(np.asarray(Pa) - np.asarray(Pb))})
@@ -283,10 +315,12 @@ def case_moduli(name, rep):
         lam0 = (A[0, 0, 1, 1] + A[0, 0, 2, 2] + A[1, 1, 2, 2]) / 3
         K0 = lam0 + 2 * mu0 / 3
         s = max(maxabs(A), 1e-300)
-        tol = (getattr(m, "moduli_tol", None) or 1e-7) + 100 * matreg.REG_SIZE[m.reg]
+        # measured effect of the regularisations on the moduli: <= 2 x (jax 1e-4 shift), <= 20 x (tensortrax eigvalsh) their size
+        tol = (getattr(m, "moduli_tol", None) or 1e-7) + (10 if matreg.REG_SIZE[m.reg] > 1e-6 else 100) * matreg.REG_SIZE[m.reg]
         mon = "material.moduli"
         if m.isotropic and not m.microsphere:
-            run.compare(mon, "model=%s clause=isotropic-tangent" % name, maxabs(A - iso_tensor(lam0, mu0)) / s, tol,
+            # (the shifts are not isotropic: diag(0, 1e-4, -1e-4) - this clause keeps 100 x their size)
+            run.compare(mon, "model=%s clause=isotropic-tangent" % name, maxabs(A - iso_tensor(lam0, mu0)) / s, max(tol, 1e-7 + 100 * matreg.REG_SIZE[m.reg]),
                         "%s: tangent at F = I is not an isotropic linear-elastic tangent" % name, unit=name + ":isotropic-tangent",
                         config=(name, "isotropic"))
         if m.moduli is not None:
